@@ -125,3 +125,33 @@ Definition column (name : String.string) (ix : idx) : option Z :=
 Definition contig_length_column : String.string := "rlen"%string.
 Definition contig_length (ix : idx) : Z := match column contig_length_column ix with Some v => v | None => -1 end.
 Definition contig_length_pinned (ix : idx) : Z := i_lenc ix.
+
+(* ---------- create_index over a chunked read ----------
+   create_index reads the FASTA through the chunked reader with FastaIdxBuffer: every chunk (a run of whole records,
+   C01) yields the index rows of its records with offsets RELATIVE to the chunk plus its size in bytes
+   (byte_size = self._data.size); the rows are shifted by offsets = cumsum([0] + sizes), paired with zip. *)
+Definition m_ci_shift (start offset : Z) : Z := start + offset.
+Definition m_ci_offsets (sizes : list Z) : list Z := cumsum (0 :: sizes).
+Definition shift_idx (off : Z) (ix : idx) : idx :=
+  {| i_name := i_name ix; i_rlen := i_rlen ix; i_offset := m_ci_shift (i_offset ix) off;
+     i_lenc := i_lenc ix; i_lenb := i_lenb ix |}.
+Definition model_index_chunks (chunks : list (list Z)) : list idx :=
+  concat (map (fun p => map (shift_idx (snd p)) (model_index (fst p)))
+              (combine chunks (m_ci_offsets (map len chunks)))).
+
+(* the index as a function of the records' SHAPES only (name, sequence length, width, bytes of the record in the file):
+   used for files too large to hand to Coq as bytes *)
+Record shape := { s_name : list Z; s_len : Z; s_width : Z; s_bytes : Z }.
+Fixpoint spec_index_shapes_from (pos eollen : Z) (ss : list shape) : list idx :=
+  match ss with
+  | [] => []
+  | s :: rest =>
+      {| i_name := s_name s; i_rlen := s_len s; i_offset := pos + 1 + len (s_name s) + eollen;
+         i_lenc := Z.min (s_width s) (s_len s); i_lenb := Z.min (s_width s) (s_len s) + eollen |}
+      :: spec_index_shapes_from (pos + s_bytes s) eollen rest
+  end.
+Definition shape_of (eol : list Z) (r : rec) : shape :=
+  {| s_name := r_name r; s_len := len (r_seq r); s_width := r_width r; s_bytes := len (layout_rec eol r) |}.
+(* bytes a record of this shape occupies: '>' name eol, then the sequence with one eol per line *)
+Definition shape_bytes (eollen : Z) (s : shape) : Z :=
+  1 + len (s_name s) + eollen + s_len s + ((s_len s + s_width s - 1) / s_width s) * eollen.
